@@ -14,7 +14,7 @@ SCRATCH = os.environ.get('VERIF_SCRATCH', '/var/tmp')
 
 MUTANTS = [
  dict(name='bsearch-off-by-one', file='setutil.go', old='\t\telse if middleValue > ikey {\n\t\t\thigh = middleIndex - 1'.replace('\t\telse','\t\t} else',1), new='\t\t} else if middleValue > ikey {\n\t\t\thigh = middleIndex - 2', keys='roaring.binarySearch', expect='binarySearch/'),
- dict(name='union-drops-tail', file='setutil.go', old='\t\t\t\tcopy(buffer[pos:], set2[k2:])\n\t\t\t\tpos += len(set2) - k2\n\t\t\t\tbreak', new='\t\t\t\tbreak', keys='roaring.union2by2', expect='union2by2/'),
+ dict(name='union-drops-tail', file='setutil_generic.go', old='\t\t\t\tcopy(buffer[pos:], set2[k2:])\n\t\t\t\tpos += len(set2) - k2\n\t\t\t\tbreak', new='\t\t\t\tbreak', keys='roaring.union2by2', expect='union2by2/'),
  dict(name='gallop-bound', file='setutil.go', old='lower += (spansize >> 1)', new='lower += spansize', keys='roaring.advanceUntil', expect='advanceUntil/'),
  dict(name='array-iadd-threshold', file='arraycontainer.go', old='\t\tif len(ac.content) >= arrayDefaultMaxSize {\n\t\t\ta := ac.toBitmapContainer()', new='\t\tif len(ac.content) > arrayDefaultMaxSize {\n\t\t\ta := ac.toBitmapContainer()', keys='roaring.arrayContainer.iaddReturnMinimized', expect='iaddReturnMinimized/'),
  dict(name='bitmap-iadd-card', file='bitmapcontainer.go', old='bc.cardinality += int((previous ^ newb) >> (uint(x) % 64))\n\treturn newb != previous', new='bc.cardinality += 1\n\treturn newb != previous', keys='roaring.bitmapContainer.iadd', expect='iadd/'),
@@ -70,7 +70,7 @@ FIX_COMMITS = [
  ('8a6ff4c', 'roaring.bitmapContainer.NextUnsetBit', 'NextUnsetBit/'),
  ('58346d0', 'roaring.runContainer16.validate', 'validate/'),
  ('7508b48', 'roaring.roaringArray.getFastContainerAtIndex', 'getFastContainerAtIndex/'),
- ('fa35648', 'roaring.arrayContainer.ixorBitmap', 'ixorBitmap'),
+ ('fa35648', 'roaring.arrayContainer.ixor', 'ixor/'),
 ]
 
 
